@@ -4,6 +4,7 @@ import Driver.Crypto
 import Driver.Gss
 import Driver.Pac
 import Driver.Replay
+import Driver.Net
 
 open Driver
 
@@ -18,6 +19,7 @@ def dispatch (line : String) : String :=
       else if op.startsWith "gss." then Gss.handle op args
       else if op.startsWith "pac." then Pac.handle op args
       else if op.startsWith "rc." then Replay.handle op args
+      else if op.startsWith "net." then Net.handle op args
       else none
     match r with
     | some s => s
